@@ -786,9 +786,13 @@ class Machine:
         want = {k: v.tolist() for k, v in dict.items(idx)}
         for col in cols:
             want[(idx.common,) + col] = numpy.nonzero(a[(slice(None),) + col] == idx.common)[0].tolist()
-        if forced != want:
+        # whether a common value without rows is shown as an empty list or not at all is not stated
+        def drop_empty(d):
+            return {k: v for k, v in d.items() if v}
+
+        if drop_empty(forced) != drop_empty(want):
             self.fail("C06", "observer-mismatch", "to_dict(force=True)", "%r != %r" % (forced, want))
-        if sorted(items) != sorted(want.items()) or len(items) != len(want):
+        if len({k for k, _ in items}) != len(items) or drop_empty(dict(items)) != drop_empty(want):
             self.fail("C06", "observer-mismatch", "items(force=True)", "%r != %r" % (sorted(items), sorted(want.items())))
         values = sorted(set(a.ravel().tolist()) | {idx.common})
         for col in cols:
